@@ -8,11 +8,16 @@ package extract
 //@   assigns nothing
 //@   ensures err == nil ==> result != nil
 //@   ensures err == nil && istype(result.TeeAttestation, *tpmpb.Attestation_TdxAttestation) ==> dyn(result.TeeAttestation, *tpmpb.Attestation_TdxAttestation) != nil
+//@   ensures err == nil && istype(result.TeeAttestation, *tpmpb.Attestation_SevSnpAttestation) ==> dyn(result.TeeAttestation, *tpmpb.Attestation_SevSnpAttestation) != nil && dyn(result.TeeAttestation, *tpmpb.Attestation_SevSnpAttestation).SevSnpAttestation != nil
 
 //@ func fromSevSnpAttestationProto
 //@   assigns nothing
 //@   ensures[C16] result1 != "" ==> at != nil && at.Report != nil && exists(m, BV, bvlen(m) == 48 && result1 == sevObjectName("ovmf_x64_csm", m), val(at.Report.Measurement))
 //@   ensures[C16] err != nil ==> result1 == ""
+// (deterministic in the supplied measurement: whenever the report carries a full-length measurement the object name is
+// derived from it - also when the certificate table already holds the endorsement - so that a forced fetch asks for the
+// supplied quote's object and never falls back to the local machine's)
+//@   ensures[C16] err == nil && at != nil && at.Report != nil && len(at.Report.Measurement) == 48 ==> result1 == sevObjectName("ovmf_x64_csm", val(at.Report.Measurement))
 
 //@ func fromTdxAttestationProto
 //@   assigns nothing
